@@ -145,6 +145,7 @@ impl Sim {
 
     pub fn now(&self) -> u64 { g().mono }
     pub fn real_now(&self) -> u64 { (g().mono as i64 + g().real_off) as u64 }
+    pub fn real_off(&self) -> i64 { g().real_off }
     pub fn sched_draw(&mut self, n: u64) -> u64 { if n == 0 { 0 } else { xo_next(&mut self.sched_rng) % n } }
 
     pub fn new_dir(&mut self, tag: &str) -> String {
